@@ -5,4 +5,19 @@ CLAIMED = {
   "note": "Trusted: the harness's reference maps; bounds: <= 120 steps, <= 2^17 registrations per kind.",
   "technique": "property-based testing (proptest-generated histories, model-based oracle, shrinking to replay file)",
  },
+ "C04": {
+  "text": "Generated call histories over forests (whole mutating API, operands = any live node of any kind incl. ones the call must refuse) with all structural invariants, handle-liveness and handle-kind rules re-checked on a bounded, cycle-safe snapshot after every step; plus an exhaustive small-scope sweep of every (tree <= 4 nodes, operation, operand tuple). Exploration: no counterexample within the explored histories / the complete small scope.",
+  "note": "Trusted: the snapshot code (bridge) and xot's primitive accessors parent/all_traverse/value/is_removed. Bounds: <= 200 ops, <= 60 start nodes.",
+  "technique": "stateful property-based testing (proptest-generated histories, invariant after every step) + small-scope exhaustive enumeration",
+ },
+ "C05": {
+  "text": "Model-based stateful testing: an ordered-forest reference model written from the crate documentation is run in lock-step with xot on generated histories of precondition-satisfying calls; after every call the whole store (structure, values, order, liveness, return value, string_value of every ancestor) must equal the model. The small-scope plan enumerates all (tree <= 4 nodes, valid operation, operands) triples with consolidation on and off.",
+  "note": "Trusted: the forest model (model/forest.rs) as specification; survivor identity of merged text nodes deliberately not prescribed.",
+  "technique": "model-based stateful property-based testing + small-scope exhaustive enumeration",
+ },
+ "C06": {
+  "text": "Same history generator as C04 with every operand tuple; the oracle needs no model: any panic except the three documented ones is a violation, and after every call that returned Err the complete observation (snapshot of all trees, serialisation of all roots, liveness of all handles) must equal the one taken before the call. Exhaustive over the small scope.",
+  "note": "Trusted: snapshot code and to_string as observation; documented panics matched by message.",
+  "technique": "stateful property-based testing with before/after metamorphic oracle + small-scope exhaustive enumeration",
+ },
 }
